@@ -633,6 +633,19 @@ impl Runner {
         resp
     }
 
+    /// submit a hand-built transaction request in the current/new block (block fields, inscription id,
+    /// byte length and txid are filled in)
+    pub fn raw_tx(&mut self, method: &str, params: Value, blk: &Blk, len: u64, is_create: bool) -> Resp {
+        let mut p = params.as_object().cloned().unwrap_or_default();
+        if method != "brc20_deposit" && method != "brc20_withdraw" {
+            p.insert("inscription_byte_len".into(), json!(len));
+            let txid = self.txid_param();
+            p.insert("op_return_tx_id".into(), json!(txid));
+        }
+        let insc = self.fresh_insc();
+        self.tx_request(method, p, blk, insc, is_create)
+    }
+
     pub fn encode_data(bytes: &[u8], b64: bool) -> (Option<Value>, Option<Value>) {
         if b64 {
             match brc20_prog::types::Base64Bytes::from_bytes(Bytes::from(bytes.to_vec())) {
